@@ -291,3 +291,37 @@ def c16(ctx):
     q = ctx.quick
     return [tool_job(ctx, 'directive', 'internal/goembed', 'goembed', [gen], unwind=60, deadline_s=900 if q else 3000,
                      only=['H_embed_prefix', 'H_embed_args3', 'H_fsorder'] if q else ['H_embed_prefix', 'H_embed_args3', 'H_embed_args4', 'H_fsorder'])]
+
+
+def gen_corpus(ctx, prop, modname):
+    """Copies the hand-written corpus files of a property into a scratch module
+    and derives meta.json (exported functions and their parameter types)."""
+    def g(d):
+        import re, glob, shutil
+        os.makedirs(d, exist_ok=True)
+        open(os.path.join(d, 'go.mod'), 'w').write('module %s\n\ngo 1.24\n' % modname)
+        meta = {}
+        for f in sorted(glob.glob(H(ctx, prop, 'corpus_*.go'))):
+            shutil.copy(f, d)
+            for m in re.finditer(r'^func ([A-Z]\w*)\(([^)]*)\) (?:\((\w+ )?([^)]+)\)|(\S+)) \{', open(f).read(), re.M):
+                name, ps, res = m.group(1), m.group(2), (m.group(4) or m.group(5) or '').strip()
+                params = []
+                pend = []
+                for part in [x.strip() for x in ps.split(',') if x.strip()]:
+                    bits = part.split(' ', 1)
+                    if len(bits) == 1:
+                        pend.append(bits[0])
+                    else:
+                        for n in pend:
+                            params.append((n, bits[1]))
+                        pend = []
+                        params.append((bits[0], bits[1]))
+                meta[name] = {'params': params, 'result': res, 'group': 'corpus'}
+        json.dump(meta, open(os.path.join(d, 'meta.json'), 'w'))
+    return g
+
+
+@prop('C01', level='translation_validation', title='core language')
+def c01(ctx):
+    C = _check()
+    return [C.TVJob('corpus', gen_corpus(ctx, 'C01', 'tvc01'), 'tvc01', chunks=12, unwind=8, deadline_s=120 if ctx.quick else 600, prefix='C01.')]
